@@ -48,6 +48,17 @@ CLAIMED["C01"] = (SCHED_TECH,
     "C01_transitive extends it to transitive dependencies. Proved through the countdown invariant of the loop (remaining = number of unfinished dependency "
     "occurrences, consumers lists consistent, each job in exactly one place). Tie: trace conformance; direct start/end sequence numbers inside job bodies.",
     SCHED_NOTE + " The generated code's dependency lists are tied separately (C02/C10/C11).", "DESIGN.md §7 C01")
+CLAIMED["C05"] = (SCHED_TECH,
+    "C05_bounded: every action of caller, loop or worker strictly decreases a measure starting at 10*jobs+N+6 (only ticks and cancellations keep it), so every run "
+    "performs at most that many scheduler actions; C05_progress: in every reachable non-final state some such action is enabled (gated dispatch) - no deadlock, no "
+    "lost wake-up, Enqueue never blocks forever, also after an early exit. For every DAG, outcome assignment in {ok, error, Goexit}, N, mode, emitter, cancellation "
+    "instant. Tie: trace conformance incl. the final state; watchdog with a stable all-blocked goroutine dump on the real scheduler.",
+    SCHED_NOTE + " Fairness of the Go scheduler (an enabled goroutine eventually runs) and 'every user function eventually returns' are assumed.", "DESIGN.md §7 C05")
+CLAIMED["C06"] = (SCHED_TECH,
+    "C06_no_leak: a reachable state where no caller/loop/worker action is enabled is final (Wait returned, loop finished, every worker exited), C06_post_enabled: a "
+    "worker can always hand over its result (at most N-1 other results outstanding), for the gated code; C06_refuted_ungated keeps the repaired defect as a machine-checked "
+    "witness (a stuck state with a worker blocked on donec). Tie: every observed execution must end in the model's final state (all WExit events present); goroutine dumps "
+    "after quiescence.", SCHED_NOTE, "DESIGN.md §7 C06")
 CLAIMED["C07"] = (SCHED_TECH,
     "C07_nil (nil only if every job started and ended successfully, none otherwise), C07_nil_ctx (context not cancelled when nil is returned), C07_error (a "
     "non-nil return is exactly one error: the context's, or the very error a job ended with; never the sentinel), C07_downstream (nothing transitively "
